@@ -36,7 +36,7 @@ Proof.
   apply lookup_in in L. unfold table_ok in Ht. rewrite forallb_forall in Ht. specialize (Ht _ L). cbn [fst snd] in Ht. apply andb_true_iff in Ht as [Hk _].
   destruct o as [k| |a b].
   - pose proof (kind_eq_ok s f ks k Hk Hp) as K. destruct k as [a b| |a b|a b]; cbn in *; try exact K; discriminate K.
-  - cbn. apply Z.eqb_refl.
+  - unfold on_raise. destruct (has_abort s); cbn; [apply Z.eqb_refl|reflexivity].
   - exfalso. apply existsb_exists in Hp as [k' [Hin E]]. rewrite forallb_forall in Hk. specialize (Hk k' Hin). destruct k'; try discriminate E. discriminate Hk.
 Qed.
 
